@@ -382,7 +382,12 @@ func (e *Eng) globalRef(g *ssa.Global) int {
 }
 
 func (t *Task) funcID(fn *ssa.Function) string {
-	name := "fn:" + fullName(fn)
+	return t.funcIDByName(fullName(fn))
+}
+
+// funcIDByName: the identity of a function's code: positive, kind "static", distinct from every other function's.
+func (t *Task) funcIDByName(full string) string {
+	name := "fn:" + full
 	c := t.declare(name, "Int")
 	key := "fnnz:" + name
 	if !t.pureDone[key] {
@@ -837,7 +842,7 @@ func (a *Activation) loadGlobal(g *ssa.Global, st *State) Val {
 	name := "g:" + g.Pkg.Pkg.Path() + "." + g.Name()
 	k := kindOfType(T)
 	if k == KStruct || k == KSlice || k == KTuple {
-		t.errorf("global %s of composite type read: outside the subset", name)
+		// over-approximation: every read of a composite package-level variable yields an unconstrained value
 		return t.freshValue(st.pc, name, T)
 	}
 	c := t.declare(name, sortOfKind(k))
